@@ -21,12 +21,36 @@ def jobs(tier):
     J("date+clock", "ob_datetod", ["ruleDateTOD", "ruleTODDate"], "every valid date 1880..2109 x hour x optional minute x both orders", "lift_datetod")
     J("TS-INDEP", "ob_tsindep", ["ruleDDMMYYYY", "ruleDOMMonth", "ruleDOYYear", "ruleDateTOD"],
       "two reference times (year 1970..2100, month, day <= 28, hour symbolic) x date 1900..2029 (day <= 28) x clock: equal results", timeout=900)
+    import sys
+    import ctparse.ctparse  # noqa
+    CC = sys.modules["ctparse.ctparse"]
+    out.append(Job("C05.NOTATIONS-API", "vq.harness.h_api2", "ob_date", timeout=3600, path_timeout=600, env={"VQ_WIDE": "0"},
+                   bounds="7 days x 12 months x 6 years (1990..2029) with clock 09:05, plus 12.03.<year> with 8x4 clock times; every notation (numeric ./-//, dd.mm.yy, day + month name + year EN/DE) "
+                          "x 3 reference times resolves to that date (and time); stand-alone years readable as hh:mm are excluded for month-name notations",
+                   functions=[fn_id(CC.ctparse)], stubs=["parser untraced; pool indices symbolic (solver covers every combination)"], site="ctparse"))
+    return out
+
+
+def tok_lemmas():
+    from .. import toklemmas as T, e2
+    from ..spec import words as W
+    out = [e2.validate(200)]
+    groups = ["january", "february", "march", "april", "may", "june", "july", "august", "september", "october", "november", "december"]
+    for k, g in enumerate(groups):
+        out.append(T.word_in_group("C05", 103, g, W.MONTHS_EN[k], "month %d" % (k + 1)))
+        out.append(T.word_in_group("C05", 103, g, W.MONTHS_DE[k], "month %d" % (k + 1)))
+    out.append(T.groups_disjoint("C05", 103, groups))
+    for pid in (108, 110, 124, 125, 126):
+        out.append(T.numeric_range("C05", pid, "day", 1, 31))
+    for pid in (109, 124, 125, 126):
+        out.append(T.numeric_range("C05", pid, "month", 1, 12))
     return out
 
 
 def run(tier, t0, only=None):
     js = [j for j in jobs(tier) if not only or only in j.name]
     res = run_jobs(js)
+    res += [r for r in tok_lemmas() if not only or only in r.name]
     return finish(
         "C05", tier, res, t0,
         assumptions=["token lemmas TOK-VAL / TOK-UNAMB: group texts denote the integers the notation spells (E2)", "dd.mm.yy means 2000+yy (the code's convention, kept)"],
